@@ -380,6 +380,13 @@ type descScenario struct {
 	Tag  string `json:"tag,omitempty"`
 }
 
+// scramble inverts every byte (an involution: twice restores)
+func scramble(b []byte) {
+	for i := range b {
+		b[i] ^= 0xff
+	}
+}
+
 func descVec(rec *recorder, class string, ds []*astits.Descriptor) []byte {
 	v := projDescriptors(ds)
 	var wb []byte
@@ -398,9 +405,11 @@ func descVec(rec *recorder, class string, ds []*astits.Descriptor) []byte {
 			gerr = fmt.Errorf("panic %v", pn)
 		}
 		e["gerr"], e["goff"] = errStr(gerr), off
+		scramble(wb) // the parsed value owns its bytes: what happens to the input afterwards is none of its business
 		if gerr == nil {
 			e["got"] = projDescriptors(got)
 		}
+		scramble(wb)
 	}
 	rec.ev(e)
 	return wb
@@ -477,6 +486,7 @@ func runDesc(line []byte, rec *recorder) {
 			if gerr != nil && fmt.Sprint(gerr)[:5] == "panic" {
 				e["gerr"] = "panic"
 			}
+			scramble(b)
 			if gerr == nil {
 				e["got"] = projDescriptors(got)
 			}
